@@ -4,48 +4,97 @@ import PsModel.Lemmas.C20
 
 Only property statements live here; helper lemmas are in `Lemmas/C20.lean`.
 `ver` is an arbitrary version type with `VerOk ver` (`<=` a total preorder; sentinel and "" are not versions);
-`cfg` is the deviation flag (`current` = the code today).
+`cfg` carries the deviation parameters (`current` = the code today, after the `fix:` commits e2ec6b7, d07dfc5 and 5d02a52;
+`Cfg.preFix` = before them, used only by the `_regress_` theorems).
 -/
 namespace PsModel.C20
 variable {V : Type}
 
-/-- **Order independence on the well-formed-pin fragment** (`_partial`: the code today).  For ANY two arrangements
-of the same multiset of (file, line) pairs in which every pin the code sees is a version, the version recorded for
-every package is the same up to `Version` equality – whatever the flag, whatever is installed. -/
-theorem C20_order_partial (cfg : Cfg) (ver : Ver V) (ok : VerOk ver) (site site' : Str → Option Str)
-    (ls ls' : List (Nat × Str)) (hperm : ls.Perm ls') (hgood : ∀ l ∈ ls, GoodLine ver l.2) (p : Str) :
-    VEquiv ver (versionOf (mergeAll cfg ver site ls) p) (versionOf (mergeAll cfg ver site' ls') p) :=
-  order_of_good cfg ver ok site site' ls ls' hperm p (news_good_of_lines cfg ver p ls hgood)
+/-- **Order independence, full strength – the code today** (`current`: a pin is validated as soon as it is split
+off, `fix:` e2ec6b7).  For ANY two arrangements of the same multiset of (file, line) pairs – no hypothesis on the lines
+whatsoever – the version recorded for every package is the same up to `Version` equality, whatever is installed. -/
+theorem C20_order_full (ver : Ver V) (ok : VerOk ver) (site site' : Str → Option Str)
+    (ls ls' : List (Nat × Str)) (hperm : ls.Perm ls') (p : Str) :
+    VEquiv ver (versionOf (mergeAll current ver site ls) p) (versionOf (mergeAll current ver site' ls') p) :=
+  order_of_good current ver ok site site' ls ls' hperm p (news_good_of_fix current ver rfl p ls)
 
-/-- **Order independence, full strength, for the repaired merge**: with `validateFirstPin` (the one-line patch of
-finding C20-F1) no hypothesis on the lines is needed. -/
-theorem C20_order_full_if_fixed (cfg : Cfg) (hfix : cfg.validateFirstPin = true) (ver : Ver V) (ok : VerOk ver)
+/-- the same for every configuration that validates the first pin, whatever its rejection set -/
+theorem C20_order_full_of_validate (cfg : Cfg) (hfix : cfg.validateFirstPin = true) (ver : Ver V) (ok : VerOk ver)
     (site site' : Str → Option Str) (ls ls' : List (Nat × Str)) (hperm : ls.Perm ls') (p : Str) :
     VEquiv ver (versionOf (mergeAll cfg ver site ls) p) (versionOf (mergeAll cfg ver site' ls') p) :=
   order_of_good cfg ver ok site site' ls ls' hperm p (news_good_of_fix cfg ver hfix p ls)
 
-/-- witness 1 (replayed on the real code): a malformed first pin is never validated and blocks the valid one -/
-theorem C20_cex_invalid_pin_first :
-    versionOf (mergeAll current numVer (fun _ => none) [(0, "p==abc".toList), (0, "p==1.0".toList)]) "p".toList
-      = some "abc".toList ∧
-    versionOf (mergeAll current numVer (fun _ => none) [(0, "p==1.0".toList), (0, "p==abc".toList)]) "p".toList
-      = some "1.0".toList := by decide
+/-- **Order independence on the well-formed-pin fragment**, whatever the configuration (in particular for the
+pre-fix shape `Cfg.preFix`, where this is all that holds): for ANY two arrangements of the same multiset of
+(file, line) pairs in which every pin the code sees is a version, the version recorded for every package is the same
+up to `Version` equality. -/
+theorem C20_order_partial (cfg : Cfg) (ver : Ver V) (ok : VerOk ver) (site site' : Str → Option Str)
+    (ls ls' : List (Nat × Str)) (hperm : ls.Perm ls') (hgood : ∀ l ∈ ls, GoodLine cfg ver l.2) (p : Str) :
+    VEquiv ver (versionOf (mergeAll cfg ver site ls) p) (versionOf (mergeAll cfg ver site' ls') p) :=
+  order_of_good cfg ver ok site site' ls ls' hperm p (news_good_of_lines cfg ver p ls hgood)
 
-/-- witness 2: an empty pin is falsy when recorded first, but replaces an unpinned entry when it comes second -/
-theorem C20_cex_empty_pin_vs_unpinned :
-    versionOf (mergeAll current numVer (fun _ => none) [(0, "p==".toList), (0, "p".toList)]) "p".toList = some UNP ∧
-    versionOf (mergeAll current numVer (fun _ => none) [(0, "p".toList), (0, "p==".toList)]) "p".toList = some [] := by
+/-- **A pin that is not a version is ignored** by the code today, wherever it stands and whatever is recorded
+(malformed `p==abc`, empty `p==`, sentinel `p==_unpinned_version`: `VerOk` says the last two are not versions). -/
+theorem C20_invalid_pin_ignored (ver : Ver V) (site : Str → Option Str) (t : Table) (src : Nat) (raw n v : Str)
+    (hp : parseLine current raw = some (n, some v)) (hv : ver.parse v = none) :
+    processLine current ver site t (src, raw) = t := by
+  have hr : rejectedByFix current ver (some v) = true := by simp [rejectedByFix, current, hv]
+  simp only [processLine, hp, hr, if_true]
+
+/-! ### regression witnesses: the pre-fix configuration `Cfg.preFix` really behaves differently (the two parameters
+are not vacuous).  These were the `_cex` theorems while findings C20-F1…F4 were open; the real pre-fix code is
+replayed against them by `VERIF_REPO=<worktree of f2eddcb> ./check C20`. -/
+
+/-- (fixed C20-F1) a malformed first pin was never validated and blocked the valid one; today both orders give 1.0 -/
+theorem C20_regress_invalid_pin_first :
+    (versionOf (mergeAll Cfg.preFix numVer (fun _ => none) [(0, "p==abc".toList), (0, "p==1.0".toList)]) "p".toList
+      = some "abc".toList ∧
+     versionOf (mergeAll Cfg.preFix numVer (fun _ => none) [(0, "p==1.0".toList), (0, "p==abc".toList)]) "p".toList
+      = some "1.0".toList) ∧
+    (versionOf (mergeAll current numVer (fun _ => none) [(0, "p==abc".toList), (0, "p==1.0".toList)]) "p".toList
+      = some "1.0".toList ∧
+     versionOf (mergeAll current numVer (fun _ => none) [(0, "p==1.0".toList), (0, "p==abc".toList)]) "p".toList
+      = some "1.0".toList) := by decide
+
+/-- (fixed C20-F2) an empty pin was falsy when recorded first, but replaced an unpinned entry when it came second;
+today it is ignored in both orders -/
+theorem C20_regress_empty_pin_vs_unpinned :
+    (versionOf (mergeAll Cfg.preFix numVer (fun _ => none) [(0, "p==".toList), (0, "p".toList)]) "p".toList = some UNP ∧
+     versionOf (mergeAll Cfg.preFix numVer (fun _ => none) [(0, "p".toList), (0, "p==".toList)]) "p".toList = some []) ∧
+    (versionOf (mergeAll current numVer (fun _ => none) [(0, "p==".toList), (0, "p".toList)]) "p".toList = some UNP ∧
+     versionOf (mergeAll current numVer (fun _ => none) [(0, "p".toList), (0, "p==".toList)]) "p".toList = some UNP) := by
   decide
 
-/-- hence the full-strength statement is FALSE for the code as it is -/
-theorem C20_order_full_false :
+/-- (fixed C20-F3) `p~=1.0` / `p!=1.0` became unpinned packages of that literal name; today the lines are ignored
+(and a pin with a version epoch, which contains a lone `!`, is still a pin) -/
+theorem C20_regress_specifier_kept_as_name :
+    ((mergeAll Cfg.preFix numVer (fun _ => none) [(0, "p~=1.0".toList), (0, "p!=1.0".toList), (0, "p==2.0".toList)]).map
+        (fun e => (e.name, e.version))
+      = [("p~=1.0".toList, UNP), ("p!=1.0".toList, UNP), ("p".toList, "2.0".toList)]) ∧
+    ((mergeAll current numVer (fun _ => none) [(0, "p~=1.0".toList), (0, "p!=1.0".toList), (0, "p==2.0".toList)]).map
+        (fun e => (e.name, e.version))
+      = [("p".toList, "2.0".toList)]) ∧
+    versionOf (mergeAll current numVer (fun _ => none) [(0, "p==1!2.0".toList), (0, "p==3.0".toList)]) "p".toList
+      = some "1!2.0".toList ∧
+    versionOf (mergeAll current numVer (fun _ => none) [(0, "p==3.0".toList), (0, "p==1!2.0".toList)]) "p".toList
+      = some "1!2.0".toList := by decide
+
+/-- (fixed C20-F4) a pin to the sentinel string counted as an unpinned requirement; today the line is ignored -/
+theorem C20_regress_sentinel_pin :
+    versionOf (mergeAll Cfg.preFix numVer (fun _ => none) [(0, "p==_unpinned_version".toList)]) "p".toList = some UNP ∧
+    versionOf (mergeAll current numVer (fun _ => none) [(0, "p==_unpinned_version".toList)]) "p".toList = none := by
+  decide
+
+/-- hence the full-strength statement was FALSE for the pre-fix code: `C20_order_full` cannot be proved for
+`Cfg.preFix`, the hypothesis of `C20_order_partial` is needed there -/
+theorem C20_regress_order_full_false :
     ¬ (∀ (ls ls' : List (Nat × Str)), ls.Perm ls' → ∀ p,
-        VEquiv numVer (versionOf (mergeAll current numVer (fun _ => none) ls) p)
-                      (versionOf (mergeAll current numVer (fun _ => none) ls') p)) := by
+        VEquiv numVer (versionOf (mergeAll Cfg.preFix numVer (fun _ => none) ls) p)
+                      (versionOf (mergeAll Cfg.preFix numVer (fun _ => none) ls') p)) := by
   intro h
   have := h [(0, "p==abc".toList), (0, "p==1.0".toList)] [(0, "p==1.0".toList), (0, "p==abc".toList)]
     (List.Perm.swap _ _ _) "p".toList
-  rw [C20_cex_invalid_pin_first.1, C20_cex_invalid_pin_first.2] at this
+  rw [C20_regress_invalid_pin_first.1.1, C20_regress_invalid_pin_first.1.2] at this
   rcases this with h | ⟨x, _, hx, _⟩
   · exact absurd h (by decide)
   · have : numVer.parse "abc".toList = none := by decide
@@ -55,37 +104,48 @@ theorem C20_order_full_false :
 version – or the line is ignored by both), the recorded version of every package is a correct selection in the
 sense of `Selected`: a highest valid pin; the unpinned marker only if no pin exists; nothing if no line names it. -/
 theorem C20_highest (cfg : Cfg) (ver : Ver V) (ok : VerOk ver) (site : Str → Option Str) (ls : List (Nat × Str))
-    (hspec : ∀ l ∈ ls, parseLine l.2 = specLine ver l.2) (p : Str) :
+    (hspec : ∀ l ∈ ls, parseLine cfg l.2 = specLine ver l.2) (p : Str) :
     Selected ver (ls.filterMap (fun l => specLine ver l.2)) p (versionOf (mergeAll cfg ver site ls) p) :=
   selected_mergeAll cfg ver ok site ls hspec p
 
 /-- **Blank and comment lines are ignored**, wherever they stand. -/
 theorem C20_blank_comment_ignored (cfg : Cfg) (ver : Ver V) (site : Str → Option Str) (t : Table) (src : Nat)
     (raw : Str) (h : ∀ c ∈ cutComment raw, isWs c = true) : processLine cfg ver site t (src, raw) = t := by
-  have : parseLine raw = none := parseLine_of_body_nil raw (strip_allWs _ h)
+  have : parseLine cfg raw = none := parseLine_of_body_nil cfg raw (strip_allWs _ h)
   simp [processLine, this]
 
 /-- **An inline comment does not change what a line means.** -/
-theorem C20_inline_comment_ignored (raw tail : Str) (h : '#' ∉ raw) : parseLine (raw ++ '#' :: tail) = parseLine raw := by
-  simp only [parseLine, body, cutComment_append_hash raw tail h, cutComment_no_hash raw h]
+theorem C20_inline_comment_ignored (cfg : Cfg) (raw tail : Str) (h : '#' ∉ raw) :
+    parseLine cfg (raw ++ '#' :: tail) = parseLine cfg raw := by
+  simp only [parseLine, parseLineWith, body, cutComment_append_hash raw tail h, cutComment_no_hash raw h]
 
-/-- **Unsupported specifiers are ignored**: a line whose body contains `,` `>` `<` or more than one `==`. -/
+/-- **Unsupported specifiers are ignored**: a line whose body contains a pattern of the configuration's rejection
+set as a substring, or more than one `==`. -/
 theorem C20_range_specifier_ignored (cfg : Cfg) (ver : Ver V) (site : Str → Option Str) (t : Table) (src : Nat)
-    (raw : Str) (h : hasSpecChar (body raw) = true ∨ 2 < (splitEq (body raw) []).length) :
+    (raw : Str) (h : hasSpecPat cfg.specPats (body raw) = true ∨ 2 < (splitEq (body raw) []).length) :
     processLine cfg ver site t (src, raw) = t := by
-  have : parseLine raw = none := by
+  have : parseLine cfg raw = none := by
     rcases h with h | h
-    · exact parseLine_of_specChar raw h
-    · exact parseLine_of_many_parts raw h
+    · exact parseLine_of_specPat cfg raw h
+    · exact parseLine_of_many_parts cfg raw h
   simp [processLine, this]
+
+/-- for the code today that set is `,` `>` `<` `~=` `!=`: every line whose body is `pre ++ pat ++ post` for one of
+these five patterns – all `>=` `<=` `>` `<` `~=` `!=` and `,`-joined forms – is ignored (`fix:` d07dfc5 / 5d02a52) -/
+theorem C20_unsupported_specifier_ignored (ver : Ver V) (site : Str → Option Str) (t : Table) (src : Nat)
+    (raw pat pre post : Str) (hp : pat ∈ [",".toList, ">".toList, "<".toList, "~=".toList, "!=".toList])
+    (h : body raw = pre ++ pat ++ post) : processLine current ver site t (src, raw) = t := by
+  refine C20_range_specifier_ignored current ver site t src raw (Or.inl ?_)
+  rw [h]
+  exact hasSpecPat_of_sub _ pat pre post hp
 
 /-- lines that do not parse can be deleted anywhere without changing the resulting table (not just the versions) -/
 theorem C20_ignored_lines_irrelevant (cfg : Cfg) (ver : Ver V) (site : Str → Option Str) (ls : List (Nat × Str)) :
-    mergeAll cfg ver site ls = mergeAll cfg ver site (ls.filter (fun l => (parseLine l.2).isSome)) := by
+    mergeAll cfg ver site ls = mergeAll cfg ver site (ls.filter (fun l => (parseLine cfg l.2).isSome)) := by
   unfold mergeAll
   apply foldl_filter_irrelevant
   intro t l hl
-  cases hp : parseLine l.2 with
+  cases hp : parseLine cfg l.2 with
   | none => simp [processLine, hp]
   | some x => simp [hp] at hl
 
@@ -192,7 +252,7 @@ example : VerOk numVer := numVer_ok
 /-- a well-formed arrangement with pins, an unpinned line, a comment and a range line; `1.10` wins over `1.9` -/
 example :
     (∀ l ∈ [(0, "p==1.9".toList), (1, "p".toList), (0, "p==1.10 # c".toList), (1, "p>=3".toList), (0, "q==1.0.0".toList)],
-        parseLine l.2 = specLine numVer l.2) ∧
+        parseLine current l.2 = specLine numVer l.2) ∧
     versionOf (mergeAll current numVer (fun _ => none)
       [(0, "p==1.9".toList), (1, "p".toList), (0, "p==1.10 # c".toList), (1, "p>=3".toList), (0, "q==1.0.0".toList)])
       "p".toList = some "1.10".toList := by decide
